@@ -139,13 +139,9 @@ static std::string dumpRealAsRat(SP& s)
 {
    std::ostringstream o;
    int m = s.numRows(), n = s.numCols();
-   double inf = s.realParam(SP::INFTY);
+   // the copy made by _syncLPRational converts every double exactly, whatever the INFTY parameter says
    auto q = [&](double v)
    {
-      if(v >= inf) return Rational(inf).str();
-
-      if(v <= -inf) return Rational(-inf).str();
-
       return Rational(v).str();
    };
    o << m << "x" << n << ":";
